@@ -110,6 +110,9 @@ func c17Program(t *rapid.T) string {
 		sc.Body.Stmts = append(sc.Body.Stmts, sLabel("ClashTxt"))
 		f.Tops = append(f.Tops, &Top{K: "text", Text: &TextStmt{Name: "ClashTxt", Val: &TextVal{Lit: &StrLit{Parts: []string{"clash"}}}}})
 	}
+	if rapid.IntRange(0, 2).Draw(t, "consts") == 0 {
+		constify(t, f, c16Auto)
+	}
 	src := Canon(f)
 	if rapid.IntRange(0, 3).Draw(t, "break") == 0 {
 		// make it invalid somewhere: errors must be repeatable too
